@@ -338,6 +338,14 @@ func VH_C06_NamedAlt()  { vhC06[vgNamedAlt](vhElideWs) }
 func VH_C06_Elided()    { vhC06[vgElided](vhElideWs) }
 func VH_C06_Lookahead() { vhC06[vgLookahead](vhElideWs) }
 
+// numeric captures: a failed conversion is a located participle.Error too
+type vgNumeric struct {
+	N int8    `@A?`
+	S []uint8 `@B*`
+}
+
+func VH_C06_Numeric() { vhC06[vgNumeric](vhNoElide) }
+
 func VH_C06_Canary() { VH_C01_Canary() }
 
 func VH_C10_Seq()    { vhC10[vgSeq](vhElideWs) }
